@@ -440,7 +440,11 @@ class NDNApp:
                 _, _, reply = await self.express_interest(
                     name=make_command('rib', 'register', self.face, name=name),
                     lifetime=1000)
-                ret = parse_response(reply)
+                try:
+                    ret = parse_response(reply)
+                except (DecodeError, TypeError, ValueError, IndexError, struct.error):
+                    self.logger.error('Registration for %s failed: malformed response', Name.to_str(name))
+                    return False
                 if ret['status_code'] != 200:
                     self.logger.error('Registration for %s failed: %s %s',
                                       Name.to_str(name), ret["status_code"], ret["status_text"])
@@ -463,8 +467,13 @@ class NDNApp:
         name = Name.normalize(name)
         del self._prefix_tree[name]
         try:
-            await self.express_interest(make_command('rib', 'unregister', self.face, name=name), lifetime=1000)
-            return True
+            _, _, reply = await self.express_interest(
+                make_command('rib', 'unregister', self.face, name=name), lifetime=1000)
+            try:
+                ret = parse_response(reply)
+            except (DecodeError, TypeError, ValueError, IndexError, struct.error):
+                return False
+            return ret['status_code'] == 200
         except (InterestNack, InterestTimeout, InterestCanceled, ValidationFailure):
             return False
 
